@@ -15,7 +15,7 @@ pub struct RunRig {
     /// lines "arriving from the socket"
     pub to_emu: Sender<String>,
     /// every message the emulator emits (Cpu::send_message and Bus::send_message), in order
-    pub from_emu: Receiver<String>,
+    pub from_emu: Rc<Receiver<String>>,
 }
 
 impl RunRig {
@@ -24,7 +24,7 @@ impl RunRig {
         let (out_tx, out_rx) = channel::<String>();
         let (in_tx, in_rx) = channel::<String>();
         cpu.verif_attach_socket(Socket::verif_from_channels(out_tx, in_rx));
-        RunRig { cpu, to_emu: in_tx, from_emu: out_rx }
+        RunRig { cpu, to_emu: in_tx, from_emu: Rc::new(out_rx) }
     }
     pub fn drain(&self) -> Vec<String> {
         self.from_emu.try_iter().collect()
